@@ -153,6 +153,9 @@ func newPkg(pkg *packages.Package, u *Universe) Package {
 		}
 	}
 
+	// trailing comments are reached twice by ast.Inspect: through their declaration and as a comment group of their own
+	trailingCommentGroups := map[*ast.CommentGroup]bool{}
+
 	for i := range p.Package.Syntax {
 		f := p.Package.Syntax[i]
 
@@ -187,17 +190,25 @@ func newPkg(pkg *packages.Package, u *Universe) Package {
 					}
 				}
 			case *ast.CommentGroup:
+				if trailingCommentGroups[x] {
+					// the trailing comment of a declaration is not the doc of whatever follows it
+					return true
+				}
 				collectCommentGroup(x, false, x.Pos())
 			case *ast.ValueSpec:
+				trailingCommentGroups[x.Comment] = true
 				collectCommentGroup(x.Doc, false, x.Pos())
 				collectCommentGroup(x.Comment, true, x.Pos())
 			case *ast.ImportSpec:
+				trailingCommentGroups[x.Comment] = true
 				collectCommentGroup(x.Doc, false, x.Pos())
 				collectCommentGroup(x.Comment, true, x.Pos())
 			case *ast.TypeSpec:
+				trailingCommentGroups[x.Comment] = true
 				collectCommentGroup(x.Doc, false, x.Pos())
 				collectCommentGroup(x.Comment, true, x.Pos())
 			case *ast.Field:
+				trailingCommentGroups[x.Comment] = true
 				collectCommentGroup(x.Doc, false, x.Pos())
 				collectCommentGroup(x.Comment, true, x.Pos())
 			}
